@@ -26,10 +26,24 @@ def run(chk):
             ahead[k] = ahead.get(k, 0) + 1
 
     if chk.tier == 'quick':
-        stats(core.e1_flow(chk, 'scen_tee', 'tee', {'C10'}, gen, 1200, keyfn=keyfn, corpus=corpus, escalate_n=1500))
+        # systematic part: every schedule with one forced preemption (all positions, both default thread
+        # orders) of the two smallest interesting configurations
+        corpus = corpus + scen_tee.enum_cases(2, 2, 3, 'clean', 1) + scen_tee.enum_cases(2, 2, 1, 'exc', 1)
+        stats(core.e1_flow(chk, 'scen_tee', 'tee', {'C10'}, gen, 900, keyfn=keyfn, corpus=corpus, escalate_n=1500))
     else:
+        for src in ('clean', 'exc', 'stopreq'):
+            for n in (0, 1, 3, 5):
+                corpus = corpus + scen_tee.enum_cases(2, 2, n, src, 1)
+        corpus = corpus + scen_tee.enum_cases(3, 2, 3, 'clean', 1) + scen_tee.enum_cases(3, 3, 4, 'exc', 1) \
+            + scen_tee.enum_cases(2, 2, 3, 'clean', 2, chk.rng, 12000) + scen_tee.enum_cases(2, 2, 2, 'exc', 2, chk.rng, 8000) \
+            + scen_tee.enum_cases(2, 3, 4, 'clean', 2, chk.rng, 6000)
+        for b in range(0, len(corpus), 4000):
+            stats(core.e1_flow(chk, 'scen_tee', 'tee', {'C10'}, gen, 0, keyfn=keyfn, corpus=corpus[b:b + 4000], escalate_n=3000))
+            if chk.violations or chk.corr_breaks:
+                break
+        corpus = None
         # batches keep the memory of the recorded traces bounded
-        for b in range(30):
+        for b in range(20):
             stats(core.e1_flow(chk, 'scen_tee', 'tee', {'C10'}, gen, 3000, keyfn=keyfn,
                                corpus=corpus if b == 0 else None, escalate_n=3000))
             if chk.violations or chk.corr_breaks:
@@ -54,7 +68,10 @@ def run(chk):
         max_lookahead_relative_to_buffer_size=dict(sorted(ahead.items())))
     chk.cov['rule'] = (
         'cases = fixed boundary corpus (2/3 forks x window 2/3 x lengths 0,1,window,window+3 x source ending '
-        'clean/exception/StopRequested x 3 schedules) + random (forks 2-3 [thorough 2-4], buffer_size 2-3 [2-5], '
+        'clean/exception/StopRequested x 3 schedules) + bounded-preemption enumeration (non-preemptive base schedule '
+        'plus ALL single forced context switches, both default thread orders, of (2 forks, bs 2, 3 elements, clean) and '
+        '(2, 2, 1, failing source) [thorough: lengths 0/1/3/5 x 3 source kinds, 3 forks, and 26000 sampled pairs of '
+        'preemptions]) + random (forks 2-3 [thorough 2-4], buffer_size 2-3 [2-5], '
         'length 0..window+4 [..20], source ending, line-level or primitive-level preemption, chooser from '
         '{random, sticky .2/.05/.02, pct 2/3} with early timer firing 0/.02/.1, seed); each case runs the real '
         'tee() with one consumer thread per fork under the deterministic scheduler with a scheduling point at every '
